@@ -153,7 +153,11 @@ def run(ctx):
                         a = T.affine(x)
                         return list(a.m.keys())[0] if len(a.m) == 1 and a.c == 0 else None
                     def secs(x):
-                        return isinstance(x, Aff) and len(x.m) == 1 and "as_secs" in repr(list(x.m.keys())[0]) and x.c == 0
+                        # exactly the total seconds: one atom with coefficient 1 that is the as_secs() call itself (not a quotient / remainder of it)
+                        if not (isinstance(x, Aff) and len(x.m) == 1 and x.c == 0 and list(x.m.values()) == [1]):
+                            return False
+                        a_ = list(x.m.keys())[0]
+                        return a_[0] not in ("div", "rem") and "as_secs" in repr(a_)
                     h, m, s = [at(x) for x in srcs[:3]] if len(srcs) >= 3 else (None, None, None)
                     okf = h is not None and h[0] == "div" and h[2] == 3600 and secs(h[1]) and m is not None and m[0] == "div" and m[2] == 60 and at_rem(m[1], 3600, secs) and \
                         s is not None and s[0] == "rem" and s[2] == 60 and secs(s[1])
